@@ -54,6 +54,7 @@ class C16(Prop):
             cases.append({"tree": tree, "cfg": self.gen_cfg(rng, tree)})
             if k % 10 == 0 and not self.hostile:
                 cases.append({"tree": tree, "cfg": None, "proto": True})
+        cases += self.directed()
         if tier == "thorough" and not self.hostile:
             import itertools
 
@@ -67,6 +68,25 @@ class C16(Prop):
                 cases.append({"tree": tree, "cfg": {"use_root": True, "roots": ["/f1.csv"], "raising": False,
                                                     "allow_include": True, "start_pattern": None}})
         return cases
+
+    def directed(self):
+        """Include graphs that cross folders through '..' (a cycle and a diamond), with and without a root folder:
+        the same file is reached under different spellings."""
+        out = []
+        t = lambda n: {"k": "table", "n": n, "pad": 0}
+        cyc = {"folders": ["", "a", "c"], "links": [], "files": [
+            {"rel": "a/f1.csv", "blocks": [t(1), {"k": "include", "lines": ["../c/g.csv"]}]},
+            {"rel": "c/g.csv", "blocks": [t(2), {"k": "include", "lines": ["../a/f1.csv", "../a/../c/./g.csv"]}]}]}
+        dia = {"folders": ["", "a", "c"], "links": [], "files": [
+            {"rel": "f1.csv", "blocks": [t(1), {"k": "include", "lines": ["a/f2.csv", "c/g.csv", "a/../c/g.csv"]}]},
+            {"rel": "a/f2.csv", "blocks": [t(2), {"k": "include", "lines": ["../c/g.csv"]}]},
+            {"rel": "c/g.csv", "blocks": [t(3)]}]}
+        for tree, first in ((cyc, "a/f1.csv"), (dia, "f1.csv")):
+            for use_root in (False, True):
+                for raising in (False, True):
+                    out.append({"tree": tree, "cfg": {"use_root": use_root, "roots": [("/" if use_root else "ROOT/") + first],
+                                                      "raising": raising, "allow_include": True, "start_pattern": None}})
+        return out
 
     def run_proto(self, case):
         """An in-memory 'mem:' protocol loader next to the file system: dispatch by prefix."""
@@ -124,6 +144,8 @@ class C16(Prop):
         try:
             obs = L.run_load(case["tree"], base, root, case["cfg"])
             obs["base"], obs["root"] = base, root
+            # canonical form of everything that was opened or listed, taken while the tree still exists
+            obs["real"] = {e[1]: os.path.realpath(e[1]) for e in obs["events"] if e[0] in ("open", "list")}
             obs["nodes"] = [[p, k, pl] for p, k, pl in L.scan_fs(base, case["tree"], root)]
             return obs
         finally:
@@ -150,7 +172,7 @@ class C16(Prop):
         if obs["code"] == 3 and not self.hostile:
             if "FileNotFoundError" not in obs["exc"]:
                 fails.append(f"exception: {obs['exc']}")
-        opened = [e[1] for e in evs if e[0] in ("open", "list")]
+        opened = [os.path.normpath(e[1]) for e in evs if e[0] in ("open", "list")]
         if len(set(opened)) != len(opened):
             dup = next(p for p in opened if opened.count(p) > 1)
             fails.append(f"read-twice: {os.path.relpath(dup, obs['base'])} was opened / listed more than once")
